@@ -108,7 +108,7 @@ def cases(ctx):
             yield {"mode": "tam", "kind": kind, "pos": pos, "neg": neg, "ep": ep, "en": en, "sc": sc, "ec": ec,
                    "metric": str(rng.choice(["fnr", "fpr", "topr", "tpr", "callable"])), "target": rng.uniform(0, 1, int(rng.integers(1, 4))),
                    "points": [None, int(rng.integers(2, 30)), "array"][int(rng.integers(0, 3))], "pts": np.sort(rng.normal(0, 2, int(rng.integers(2, 9)))),
-                   "history": [round(float(w), 2) for w in rng.uniform(0, 1, int(rng.integers(0, 3)))]}
+                   "history": [round(float(w), 2) for w in rng.uniform(0, 1, int(rng.integers(0, 3)))], "_seed": int(rng.integers(1 << 31))}
 
 
 def execute(ctx, case):
@@ -149,7 +149,15 @@ def execute(ctx, case):
 
 def _tam_once(sess, case, s, m, metric, points, target):
     sess.ipl_calls.clear()
-    res = s.threshold_at_metric(target, m, points)  # the inversion itself is judged by M-ipl
+    k_int = isinstance(points, (int, np.integer)) and not isinstance(points, bool)
+    try:
+        # "if a scalar, this many linearly spaced scores": the number of points may be a numpy integer (a computed count)
+        res = s.threshold_at_metric(target, m, gen.int_form(case.get("_seed", 0), points) if k_int else points)  # the inversion itself is judged by M-ipl
+    except (IndexError, TypeError) as e:
+        sess.observe("R-tam")
+        sess.check("R-tam", False, "threshold_at_metric raised for a documented points specification", lambda: {"points": repr(points), "form": type(gen.int_form(case.get("_seed", 0), points)).__name__, "exc": repr(e)},
+                   sig=(metric, "int-form"), key="tam-points-raise")
+        return
     sess.observe("R-tam")
     allv = np.sort(np.concatenate([np.asarray(s.pos, dtype=float), np.asarray(s.neg, dtype=float)]))
     if points is None:
